@@ -495,6 +495,17 @@ theorem where_guard_audit_instance :
       (Expr.sel (fun _ => true) (Expr.const (fin 0)) (Expr.prim Prim.log (Expr.sel (fun _ => true) (Expr.const (fin 1)) (Expr.var 0)))) :=
   safe_gradFinite (where_guard_sound (fun _ => true) Prim.log 1 (Expr.var 0) (Expr.const (fin 0))
     trivial trivial (by show (0 : ℝ) < 1; norm_num) (fun h => by cases h))
+/-- negative control: `GradFinite` is falsifiable in the modelled number domain — `sqrt` at exactly 0 has a finite VALUE but the
+adjoint `1·1/(2·sqrt 0) = +∞`, so the predicate fails (the theorems above are not true of every expression) -/
+theorem gradFinite_audit_negative_control : ¬ GradFinite (envOf 0 [] []) (Expr.prim Prim.sqrt (Expr.var 0)) := by
+  intro h
+  have h1 := h.2 (fin 1) trivial
+  simp [Expr.vjp, Expr.eval, envOf, dPrim, AllFin] at h1
+  have e : (fin 1 * (fin 1 / (fin 2 * Num.sqrt (fin 0))) : EF) = pinf := by
+    show EF.mul (fin 1) (EF.div (fin 1) (EF.mul (fin 2) (EF.sqrt (fin 0)))) = pinf
+    simp [EF.sqrt, EF.mul, EF.div, EF.recip]
+  rw [e] at h1
+  exact h1
 end Audit
 
 end C18
